@@ -88,6 +88,9 @@ P_Sem.vos P_Sem.vok P_Sem.required_vos: P_Sem.v Sem.vos
 P_SrcMap.vo P_SrcMap.glob P_SrcMap.v.beautified P_SrcMap.required_vo: P_SrcMap.v SrcMap.vo
 P_SrcMap.vio: P_SrcMap.v SrcMap.vio
 P_SrcMap.vos P_SrcMap.vok P_SrcMap.required_vos: P_SrcMap.v SrcMap.vos
+P_Status.vo P_Status.glob P_Status.v.beautified P_Status.required_vo: P_Status.v Ast.vo Generated.vo Config.vo Model.vo HookSites.vo WfTree.vo P_OpVisit.vo P_Telemetry.vo P_Program.vo P_Count.vo P_CountGlobal.vo P_CountProgram.vo
+P_Status.vio: P_Status.v Ast.vio Generated.vio Config.vio Model.vio HookSites.vio WfTree.vio P_OpVisit.vio P_Telemetry.vio P_Program.vio P_Count.vio P_CountGlobal.vio P_CountProgram.vio
+P_Status.vos P_Status.vok P_Status.required_vos: P_Status.v Ast.vos Generated.vos Config.vos Model.vos HookSites.vos WfTree.vos P_OpVisit.vos P_Telemetry.vos P_Program.vos P_Count.vos P_CountGlobal.vos P_CountProgram.vos
 P_Telemetry.vo P_Telemetry.glob P_Telemetry.v.beautified P_Telemetry.required_vo: P_Telemetry.v Ast.vo Generated.vo Config.vo Model.vo
 P_Telemetry.vio: P_Telemetry.v Ast.vio Generated.vio Config.vio Model.vio
 P_Telemetry.vos P_Telemetry.vok P_Telemetry.required_vos: P_Telemetry.v Ast.vos Generated.vos Config.vos Model.vos
@@ -148,9 +151,9 @@ Properties/C10.vos Properties/C10.vok Properties/C10.required_vos: Properties/C1
 Properties/C11.vo Properties/C11.glob Properties/C11.v.beautified Properties/C11.required_vo: Properties/C11.v SrcMap.vo P_SrcMap.vo JsSide.vo P_JsSide.vo
 Properties/C11.vio: Properties/C11.v SrcMap.vio P_SrcMap.vio JsSide.vio P_JsSide.vio
 Properties/C11.vos Properties/C11.vok Properties/C11.required_vos: Properties/C11.v SrcMap.vos P_SrcMap.vos JsSide.vos P_JsSide.vos
-Properties/C12.vo Properties/C12.glob Properties/C12.v.beautified Properties/C12.required_vo: Properties/C12.v Ast.vo Generated.vo Config.vo Model.vo P_Program.vo P_Inert.vo P_Telemetry.vo
-Properties/C12.vio: Properties/C12.v Ast.vio Generated.vio Config.vio Model.vio P_Program.vio P_Inert.vio P_Telemetry.vio
-Properties/C12.vos Properties/C12.vok Properties/C12.required_vos: Properties/C12.v Ast.vos Generated.vos Config.vos Model.vos P_Program.vos P_Inert.vos P_Telemetry.vos
+Properties/C12.vo Properties/C12.glob Properties/C12.v.beautified Properties/C12.required_vo: Properties/C12.v Ast.vo Generated.vo Config.vo Model.vo P_Program.vo P_Inert.vo P_Telemetry.vo HookSites.vo WfTree.vo P_Status.vo
+Properties/C12.vio: Properties/C12.v Ast.vio Generated.vio Config.vio Model.vio P_Program.vio P_Inert.vio P_Telemetry.vio HookSites.vio WfTree.vio P_Status.vio
+Properties/C12.vos Properties/C12.vok Properties/C12.required_vos: Properties/C12.v Ast.vos Generated.vos Config.vos Model.vos P_Program.vos P_Inert.vos P_Telemetry.vos HookSites.vos WfTree.vos P_Status.vos
 Properties/C13.vo Properties/C13.glob Properties/C13.v.beautified Properties/C13.required_vo: Properties/C13.v Ast.vo Generated.vo Config.vo Model.vo Partial.vo P_Partial.vo
 Properties/C13.vio: Properties/C13.v Ast.vio Generated.vio Config.vio Model.vio Partial.vio P_Partial.vio
 Properties/C13.vos Properties/C13.vok Properties/C13.required_vos: Properties/C13.v Ast.vos Generated.vos Config.vos Model.vos Partial.vos P_Partial.vos
